@@ -561,9 +561,18 @@ impl Runner {
             let _ = child.kill();
         }
                     let status = child.wait().expect("wait pushr");
+                    // output that was cut may end in the middle of a line or of a block: the last, possibly partial block is dropped
+                    let usable: &str = if full || !status.success() {
+                        match stdout.rfind("\n> EXEC  :") {
+                            Some(p) => &stdout[..p + 1],
+                            None => "",
+                        }
+                    } else {
+                        &stdout
+                    };
                     let mut blocks: Vec<Value> = vec![];
                     let mut cur = json!({});
-                    for line in stdout.split('\n') {
+                    for line in usable.split('\n') {
                         if let Some(r) = line.strip_prefix("> EXEC  : ") {
                             cur = json!({"exec": r});
                         } else if let Some(r) = line.strip_prefix("> CODE  : ") {
